@@ -3,6 +3,7 @@ import GormModel.Model.Limit
 import GormModel.Model.Batches
 import GormModel.Model.ReadPaths
 import GormModel.Model.ScanLoop
+import GormModel.Gen.ReadPathFacts
 open Lean
 namespace Gorm.Drv
 namespace HC15
@@ -137,6 +138,10 @@ open Gorm.ScanLoop
 
 def handleC15 (op : String) (args : Array Json) : Option Json := do
   match op with
+  | "c15.facts" =>
+    -- the regenerated facts that select the transcription (the harness' generators stop avoiding a repaired pattern)
+    some (Json.mkObj [("zeroLimitReturn", Json.bool Gen.findInBatchesZeroLimitReturn),
+      ("scanNoRowResetsSlice", Json.bool Gen.scanNoRowResetsSlice)])
   | "limit.merge" =>
     let cs ← parseLimCalls (arg args 1)
     let st := applyCalls none cs
@@ -146,7 +151,7 @@ def handleC15 (op : String) (args : Array Json) : Option Json := do
     let cs ← parseLimCalls (arg args 2)
     let b ← jInt? (arg args 3)
     let st := applyCalls none cs
-    let out := findInBatches rows st b (rows.length + 2)
+    let out := findInBatches Gen.findInBatchesZeroLimitReturn rows st b (rows.length + 2)
     some (batchOutJ out (findAll rows st))
   | "batchesW" =>
     let tbl ← parseNats (arg args 1)
@@ -156,7 +161,7 @@ def handleC15 (op : String) (args : Array Json) : Option Json := do
     let b ← jInt? (arg args 5)
     let fuel ← jNat? (arg args 6)
     let st := applyCalls none cs
-    let out := findInBatchesW tbl us ord st b fuel
+    let out := findInBatchesW Gen.findInBatchesZeroLimitReturn tbl us ord st b fuel
     some (batchOutJ out (findAllW tbl us ord st))
   | "paths" =>
     let tbl ← parseNats (arg args 1)
@@ -181,7 +186,7 @@ def handleC15 (op : String) (args : Array Json) : Option Json := do
     let c := mkCursor rows failAt
     match path with
     | "query" => some (scanOutJ (queryPath c raise cols d))
-    | "scan" => some (scanOutJ (dbScan c cols d))
+    | "scan" => some (scanOutJ (dbScan Gen.scanNoRowResetsSlice c cols d))
     | "rowsloop" =>
       let fresh := ((arg args 6).getObjValD "fresh").getBool?.toOption.getD false
       let (snaps, err) := if fresh then rowsLoopFresh cols c [] else rowsLoop cols c d []
